@@ -356,19 +356,21 @@ class C55(ShmProp):
     structure = 'storemap'
     cases_per_plan = 1500
     quick_runs = 44
-    rule = ('case = 2-4 tasks with 3-30 operations each on a real Ipc::StoreMap with 3-8 anchors/slices created by StoreMap::Init on shared segments, '
-            '1-4 keys (colliding anchor positions included), a real PageStack as slice allocator and the harness as StoreMapCleaner. Operations: '
-            'openForWriting+setKey, append slice, startAppending, closeForWriting, abortWriting, switchWritingToReading, openForReading, walk the '
-            'chain, closeForReading, closeForReadingAndFreeIdle, freeEntry (by a holder / by position), freeEntryByKey, purgeOne and, in a third of the '
-            'cases, openForUpdating + closeForUpdating/abortUpdating; three scheduling policies, optional kid crash, 3 schedule seeds per case. '
+    rule = ('case = 2-4 tasks with 3-30 operations each on a real Ipc::StoreMap with 3-8 anchors/slices on the shared segments created by '
+            'StoreMap::Init, 1-4 keys (colliding anchor positions included), a real PageStack as slice allocator and the harness as StoreMapCleaner. '
+            'Operations: openForWriting+setKey, append slice, startAppending, closeForWriting, abortWriting, switchWritingToReading, openForReading, walk '
+            'the chain, closeForReading, closeForReadingAndFreeIdle, freeEntry (by a holder / by position), freeEntryByKey, purgeOne; three scheduling '
+            'policies, optional kid crash, 3 schedule seeds per case. openForUpdating/closeForUpdating/abortUpdating cases are generated only with '
+            'VERIF_C55_UPDATES=1 (their violation classes are prefixed "upd-"): on the unchanged tree they fail, see tools/props/p_shm.py. '
             'non-trivial = at least one pre-emption; distinct = distinct case text')
-    expected_probes = ['c55.write_open_ok', 'c55.write_open_failed', 'c55.read_open_ok', 'c55.read_open_failed', 'c55.read_open_of_appending_entry',
-                       'c55.slices_visited', 'c55.full_chains_verified', 'c55.slices_freed', 'c55.certain_deletions', 'c55.purged', 'c55.update_committed',
-                       'c55.update_aborted', 'c55.read_closed_free_idle', 'c55.write_aborted', 'c55.quiescent_checks', 'fault.shm.kid_crash']
+    _base_probes = ['c55.write_open_ok', 'c55.write_open_failed', 'c55.read_open_ok', 'c55.read_open_failed', 'c55.read_open_of_appending_entry',
+                    'c55.slices_visited', 'c55.full_chains_verified', 'c55.slices_freed', 'c55.certain_deletions', 'c55.purged',
+                    'c55.read_closed_free_idle', 'c55.write_aborted', 'c55.quiescent_checks', 'fault.shm.kid_crash']
     # share of cases that contain openForUpdating/closeForUpdating/abortUpdating. Off by default: on the unchanged tree those cases expose
     # what look like genuine defects of the update code (see the report / VERIF_C55_UPDATES=1 to reproduce); their violation classes
     # carry the prefix "upd-" so that they can be matched separately.
     with_updates = float(os.environ.get('VERIF_C55_UPDATES', '0') or 0) and 0.33
+    expected_probes = _base_probes + (['c55.update_committed', 'c55.update_aborted'] if with_updates else [])
 
     def gen_case(self, rng, cid):
         nt = weighted(rng, [(5, 2), (4, 3), (2, 4)])
